@@ -16,5 +16,6 @@ git -C /repo worktree remove --force $wt
 # put back the committed snapshot of what this property regenerates from the source (the run above rewrote it from the
 # patched tree; the next check of /repo would rewrite it again, but a commit in between must not pick up a mutant's model)
 lo=$(echo $pid | tr 'C' 'c')
-git -C /verif checkout -- $(git -C /verif ls-files "lean/RkVerif/Gen/${pid}*" "harness/gen/${lo}*") 2>/dev/null
+gf=$(git -C /verif ls-files "lean/RkVerif/Gen/${pid}*" "harness/gen/${lo}*")
+[ -n "$gf" ] && git -C /verif checkout -- $gf 2>/dev/null
 exit $rc
